@@ -79,6 +79,15 @@ def qr_cases(draw, tier):
     return {"A": np.ascontiguousarray(A), "kind": kind}
 
 
+@st.composite
+def long_qr_cases(draw, tier):
+    Lg, sh = draw(gen.long_dim(cap=257 if tier == "quick" else 520)), draw(st.integers(1, 3))
+    A, pat = draw(gen.long_qarray(Lg, sh, draw(st.sampled_from(["generic", "int"]))))
+    if draw(st.booleans()):
+        A = np.ascontiguousarray(np.swapaxes(A, 0, 1))
+    return {"A": np.ascontiguousarray(A * 10.0 ** draw(st.sampled_from([0, 0, -9, 9]))), "kind": pat}
+
+
 def leading_rank(A):
     """(numerical rank, condition number) of the leading min(m,n) columns."""
     m, n, _ = A.shape
@@ -139,7 +148,8 @@ PROPERTY = Property(
     id="C06",
     title="Quaternion QR reproduces A with orthonormal Q and triangular R for every shape",
     rule="m < n (wide), or numerical rank of the leading min(m,n) columns < min(m,n), or m = 1",
-    clauses=[Clause("qr", check_qr, strategy=qr_cases, budget={"quick": 1500, "thorough": 24000})],
+    clauses=[Clause("qr", check_qr, strategy=qr_cases, budget={"quick": 1500, "thorough": 24000}),
+             Clause("qr_long_dimension", check_qr, strategy=long_qr_cases, budget={"quick": 32, "thorough": 320}, shrink=False)],
     assumptions=[
         "orthonormality / reconstruction judged in the harness's own Hamilton arithmetic with c*(m+n)*u bounds (c=200)",
         "input-class tag 'leading_rank_deficient' = numerical rank (rel 1e-10, LAPACK on the complex adjoint) of the "
